@@ -21,11 +21,30 @@ impl<T: Write> WritePrinter<T> {
         &self.writer
     }
 
+    /// Writes all the bytes, like `write_all`, but also tells how many of them
+    /// the device took when it refuses the rest.
+    fn write_counted(&mut self, bytes: &[u8]) -> (usize, std::io::Result<()>) {
+        let mut written = 0;
+        while written < bytes.len() {
+            match self.writer.write(&bytes[written..]) {
+                Ok(0) => {
+                    return (written, Err(std::io::ErrorKind::WriteZero.into()));
+                }
+                Ok(n) => written += n,
+                Err(e) if e.kind() == std::io::ErrorKind::Interrupted => {}
+                Err(e) => return (written, Err(e)),
+            }
+        }
+        (written, Ok(()))
+    }
+
     fn print_as_is(&mut self, s: &str) -> std::io::Result<usize> {
-        self.writer.write_all(s.as_bytes())?;
-        // the text is on the device now, even if flushing fails
+        let (written, result) = self.write_counted(s.as_bytes());
+        // the text is on the device now, even if flushing fails, and so is the
+        // part of it that went out before the device refused the rest
         // (a column is a character: CHR$(200) is one column, two bytes on the device)
-        self.last_column += s.chars().count();
+        self.last_column += s.char_indices().take_while(|(i, _)| *i < written).count();
+        result?;
         self.writer.flush()?;
         Ok(s.len())
     }
@@ -51,8 +70,12 @@ impl<T: Write> Printer for WritePrinter<T> {
     }
 
     fn println(&mut self) -> std::io::Result<usize> {
-        self.writer.write_all("\r\n".as_bytes())?;
-        self.last_column = 0;
+        let (written, result) = self.write_counted("\r\n".as_bytes());
+        if written > 0 {
+            // a carriage return alone starts the line again, too
+            self.last_column = 0;
+        }
+        result?;
         Ok(2)
     }
 
